@@ -171,6 +171,19 @@ def summary_tables_of(snapshot):
   return out
 
 
+def cycle_filter(cells, kind_of):
+  """Differing cells that are not judged because a dependency cycle is involved: pairs of two errors of which
+  one is CircularRefError (as before), and - when some differing pair has CircularRefError on one side only -
+  every differing FORMULA cell: a cycle that runs through a lookup index or sorted neighbours is noticed or not
+  depending on evaluation order, and the cells downstream of it differ accordingly (C18 fixes the outcome only
+  for same-row reference cycles, which C18 itself checks). Data and metadata cells are always judged.
+  Returns (cells still judged, whether anything was dropped)."""
+  real = [x for x in cells if not is_cycle_error_pair(x[3], x[4])]
+  if any(_is_circ(x[3]) != _is_circ(x[4]) for x in real):
+    real = [x for x in real if kind_of(x[0], x[1]) not in ('formula', 'helper')]
+  return real, len(real) < len(cells)
+
+
 def _is_circ(v):
   return eqv.is_error_cell(v) and len(v) > 1 and v[1] == 'CircularRefError'
 
@@ -322,13 +335,7 @@ def judge_state_diff(ref, obs, full_log, upto):
         labels.append('reference-state-was-stale(summary rows; charged to C05)')
         return None, labels
     return ('structure:%s:%s' % (tcat, what.replace(' ', '-')), structural[:4]), labels
-  real = [x for x in cells if not is_cycle_error_pair(x[3], x[4])]
-  if any(_is_circ(x[3]) != _is_circ(x[4]) for x in real):
-    # one side CircularRefError, the other a value or another error, in a formula that reaches other rows through
-    # lookups / sorted neighbours: whether such a cycle is noticed depends on evaluation order (not judged)
-    fm = formulas_of_snapshot(ref)
-    real = [x for x in real if not (_is_circ(x[3]) != _is_circ(x[4]) and
-                                    CROSS_ROW & set(formula_features(fm.get((x[0], x[1]), ''))))]
+  real, _ = cycle_filter(cells, lambda t, c: col_kind(ref, t, c))
   if len(real) < len(cells):
     labels.append('cycle-error-kind-differs(not judged)')
   if not real:
